@@ -295,6 +295,35 @@ def rule_vacancy(ck, rid="C02.R6"):
     if len(rets) != 1:
         raise AnalysisError("current_charging_rates: expected one return")
     r = rets[0]
+    # stored-vector form: the network keeps the measured rates in an attribute and hands out (a copy of) it.  "The recorded rate of a
+    # station is zero in every period in which no EV is connected" then needs the slot of a station to be cleared wherever a station
+    # is vacated: every caller of the EVSE-level unplug() clears the slot on the same path (cache coherence, package-wide)
+    e0 = fl.expand(r.expr, r)
+    while isinstance(e0, ast.Call) and ((call_name(e0) in ("copy", "tolist") and isinstance(e0.func, ast.Attribute) and not e0.args) or
+                                        (call_name(e0) in ("array", "asarray", "list", "copy", "deepcopy") and len(e0.args) == 1)):
+        e0 = e0.func.value if (isinstance(e0.func, ast.Attribute) and not e0.args) else e0.args[0]
+    d0 = dotted(e0)
+    if d0 is not None and d0.startswith("self.") and d0.count(".") == 1:
+        attr = d0.split(".")[1]
+        from ..rules import who_calls
+        sites = 0
+        for g, c in who_calls(repo, "unplug"):
+            if g is None or "/tests/" in g.module or c.args or c.keywords:
+                continue
+            if isinstance(c.func, ast.Attribute) and isinstance(c.func.value, ast.Call) and call_name(c.func.value) == "super":
+                continue
+            sites += 1
+            gfl = flow_of(g)
+            cnode = next((n for n, cc in calls_in(gfl, "unplug") if cc is c), None)
+            clears = [n for n, k, p, t in state_writes(gfl) if p == f"self.{attr}" and k == "subassign" and isinstance(n.stmt, ast.Assign)
+                      and isinstance(n.stmt.value, ast.Constant) and n.stmt.value.value == 0]
+            ok = cnode is not None and clears and (any(gfl.cfg.dominates(x, cnode) for x in clears) or
+                                                  gfl.cfg.exit not in gfl.cfg.reach(cnode, avoid=set(clears) | {gfl.cfg.raise_exit}))
+            ck.require(bool(ok), rid, g, c, ok=f"the station's slot of {attr} is cleared where the station is vacated",
+                       bad=f"{g.qual} vacates a station (EVSE.unplug()) without clearing its slot in `{attr}`, the stored vector "
+                           f"current_charging_rates hands out: the vacant station keeps reporting the departed EV's last rate", sink=f"vacate-clears:{g.qual}")
+        ck.floor(rid, sites, 1, "call sites of the EVSE-level unplug()")
+        return
     elems = collect_list(fl, r.expr, r)
     if elems is None:
         raise AnalysisError(f"current_charging_rates: construction not recognised: {src(r.expr)}")
